@@ -117,6 +117,10 @@ def jobs(tier, seed):
     pair(["expr", ["Exponential", X, SYM("b1")]], ["expr", ["Exponential", X, SYM("b2")]], ["expr", ["Exponential", X, 2]], tag="triple")
     pair(["Point", [["x", SYM("c1")]]], ["Point", [["x", SYM("c2")]]], ["Point", [["x", SYM("c3")], ["y", 1]]], tag="triple")
     pair(["expr", ["Add", X, Y]], ["expr", ["Add", X, Y]], ["expr", ["Add", X, Y, X]], tag="triple")
+    # the same LocatedDifferential through different routes; floating-point rounding of the stored partials must not leak into ==
+    for d in [["Multiply", ["NthRoot", X, 3], Y], ["Divide", ["NthPower", X, 3], Y], ["Logarithm", X, 10], ["Multiply", ["Exponential", X], ["Sine", Y]],
+              ["Power", X, Y], ["Add", ["Multiply", X, Y], ["Reciprocal", X]]]:
+        js.append({"mode": "ldroutes", "d": d})
     pair(["expr", ["const", SYM("c1")]], ["expr", ["const", SYM("c2")]], tag="symbolic", twin="claim-never-equal")
     pair(["expr", ["NthPower", X, SYM("n1")]], ["expr", ["NthPower", X, SYM("n2")]], int_inputs=["n1", "n2"], tag="symbolic", twin="claim-always-equal")
     for i, j in enumerate(js):
@@ -145,8 +149,14 @@ def collect_syms(o, acc):
                     num(it[1])
 
 
+ROUNDING_PRONE = [[3, 7], [2, 2], [0.7, 1.3], [1.1, 2.3], [5, 3], [0.3, 0.9], [7, 11]]
+
+
 def prepare(spec, ctx):
     symhash.inject_hash()
+    if spec["mode"] == "ldroutes":
+        from props import common as cm
+        return cm.prepare({"d": spec["d"], "mode": "route", "routes": []}, ctx)
     names = []
     for o in (spec["a"], spec["b"], spec.get("c")):
         collect_syms(o, names)
@@ -239,6 +249,21 @@ def bool_vc(name, outs, idx, want_expr, ctx):
 
 def vcs(spec, ctx, outs):
     res = []
+    if spec["mode"] == "ldroutes":
+        o = outs[0]
+
+        def judge(val, couts):
+            c = couts[0]
+            if c["kind"] in ("DomainError",):
+                return None
+            return None if (c["kind"] == "value" and c.get("value") is True) else f"LocatedDifferential objects of equal expression and point compare unequal: {c}"
+        if o["kind"] == "value" and o["value"] is True:
+            return [VC("same-LocatedDifferential-through-different-routes:equal-over-the-reals", None, None, {"failed": False}),
+                    VC("same-LocatedDifferential-through-different-routes:floating-point", z3.BoolVal(True), judge,
+                       {"concrete_only": True, "candidates": ROUNDING_PRONE})]
+        if o["kind"] == "DomainError":
+            return [VC("same-LocatedDifferential-through-different-routes:outside-domain", None, None, {"failed": False})]
+        return [VC("same-LocatedDifferential-through-different-routes", z3.BoolVal(True), judge, {"candidates": ROUNDING_PRONE})]
     env = ctx.consts
     spec_ab = o_eq(spec["a"], spec["b"], env)
     if spec.get("twin") == "claim-never-equal":
